@@ -762,7 +762,7 @@ class PlSqlDialect(AnsiSqlDialect):
 
         elif ansi_type == "int":
             length = sql_ansi_type[1]
-            if length > MAX_INTEGER:
+            if length is not None and length > MAX_INTEGER:
                 # NOTE: The precision is the number of digits, not the limit itself.
                 result = ("number", len(str(length + 1)), 0)
 
@@ -971,9 +971,11 @@ class TransactSqlDialect(AnsiSqlDialect):
         ansi_type = sql_ansi_type[0]
         if ansi_type == "int":
             limit = sql_ansi_type[1]
-            assert limit >= 0, "length=%r" % limit
+            assert limit is None or limit >= 0, "length=%r" % limit
 
-            if limit <= MAX_TINYINT:
+            if limit is None:
+                result = ("int", limit)
+            elif limit <= MAX_TINYINT:
                 result = ("tinyint", limit)
             elif limit <= MAX_SMALLINT:
                 result = ("smallint", limit)
@@ -1299,7 +1301,9 @@ class Db2SqlDialect(AnsiSqlDialect):
         result = sql_ansi_type
         if ansi_type == "int":
             length = sql_ansi_type[1]
-            if length <= MAX_SMALLINT:
+            if length is None:
+                result = ("integer", length)
+            elif length <= MAX_SMALLINT:
                 result = ("smallint", length)
             elif length <= MAX_INTEGER or length is None:
                 result = ("integer", length)
